@@ -32,7 +32,7 @@ try:
     meta = {'id': sid, 'property': sid.split('-')[0], 'round': 4, 'title': title,
             'needs_to_manifest': notes[:1500],
             'demo': {'file': 'seed_demo_test.go', 'package_dir': pkgdir, 'run': f'go test -vet=off -count=1 -run TestSeed ./{pkgdir}'},
-            'origin': 'fresh sub-agent (fourth round) given only the property text and a scratch worktree without the contract files',
+            'origin': 'fresh sub-agent (fifth batch) given only the property text and a scratch worktree without the contract files',
             'confirmed': {'how': 'tools/seedconfirm.py: fresh scratch worktree of /repo HEAD under /tmp (removed afterwards): git apply patch.diff; go build ./... && go test -vet=off -count=1 ./... ; demo copied into its package and run with the patch and after git apply -R',
                           'suite_with_patch': 'PASS (all packages ok)', 'demo_with_patch': 'FAIL', 'demo_without_patch': 'PASS'}}
     json.dump(meta, open(f'{dst}/meta.json', 'w'), indent=1)
